@@ -570,6 +570,8 @@ pub fn run(run: &Run) {
     two_input_mints(run, NetID::Mainnet, 97, &[(3, true), (8, false)]);
     two_input_mints(run, NetID::Custom02, 3, &[(3, true), (8, false)]);
     formula_grid(run);
+    // the process-wide inflator table under every interleaving of a few threads (loom), then the free-running sampling supplement
+    crate::loomrun::inflator_interleavings(run, "C18");
     concurrent_inflator_lookups(run, thorough);
     run.set("ages", json!({"custom02": ages, "mainnet": m_ages}));
     run.set("difficulties", json!(diffs.iter().map(|(d, t)| format!("{}{}", d, if *t { "/tip910" } else { "/legacy" })).collect::<Vec<_>>()));
